@@ -789,6 +789,9 @@ func (sc *mScene) probe() (out []mProbeRes) {
 		}
 	}
 	for i := range sc.vsubs {
+		if sc.vsubs[i].State().IsFinal {
+			continue // the victim's user accepted a final state of this sub-channel: it takes no more updates, by design
+		}
 		one(fmt.Sprintf("update of sub-channel %d proposed by M", i), sc.msubs[i])
 		one(fmt.Sprintf("update of sub-channel %d proposed by V", i), sc.vsubs[i])
 	}
